@@ -4,8 +4,8 @@
    for every identity-hash function [idhash] (collisions included) and every family layout;
    executions that unwind (panic) are outside (checks/notes/C06.txt). *)
 From Salsa Require Import Base.
-From Salsa.Structs Require Import Model Dsl Machine ProofsStep Theorems Examples Guard Sim SimExamples
-     SSem SInv SRun STop SAdeq SDsl S1Examples.
+From Salsa.Structs Require Import Model Dsl Spec Machine ProofsStep Theorems Examples Guard Sim SimExamples
+     SSem SInv SRun STop STop2 SAdeq SDsl SParam SParamK SSpec S1Examples S1b SCanon.
 
 (* C06_distinct: at any time the ids held by running executions and stored memos are the
    current ids of live slots; ids held by different holders have different slot indices, hence
@@ -209,8 +209,9 @@ Proof. exact (conj rc_bwf (conj rc_handle_safe rc_outputs)). Qed.
    LOW (ops: OSet with durability None or LOW, OGet, OEntries), no Get of the history unwinds
    (okout), fewer than 2^31 operations (generations stay below 2^32 - 1).
    Not covered (full statement below): struct-keyed functions and their cascades, durabilities
-   above LOW, OSetCell / OSynth, independence of the value from the allocator's naming of handles
-   (needs parametricity of bodies in handles). *)
+   above LOW.  OSetCell / OSynth: C06_from_scratch_writes_partial; independence of the value from
+   the allocator's naming of handles: C06_from_scratch_canonical_partial; equality with the
+   operational specification Structs/Spec.v: C06_model_is_spec_partial (all below). *)
 Theorem C06_from_scratch_partial :
   forall (prog : qk -> body) (skind : N -> bool) (idhash : val -> N) (rank : qk -> nat) (NF : nat),
   calls_below prog rank -> (forall q, (rank q < NF)%nat) ->
@@ -262,3 +263,189 @@ Example C06_from_scratch_nonvacuous :
   [SOk (3, []); SOk (1, []); SOk (0, []); SOk (99, []); SOk (0, []);
    SOk (0, []); SOk (0, []); SOk (5, []); SOk (0, [(0, 1)]); SOk (1, [])].
 Proof. exact (conj r1_hyps r1_outputs). Qed.
+
+(* C06_from_scratch_writes_partial (stage S1b): C06_from_scratch_partial for the larger history
+   class `s1b_ops` (Structs/STop2.v): OSet (durability None / LOW), OSynth with ANY durability
+   (a synthetic write; with durability NEVER it panics after starting a revision, which is
+   covered), OSetCell, OGet, OEntries.  A cell is read untracked and a cell write starts no
+   revision, so OSetCell is allowed only while nothing has been verified in the current revision
+   (the flag of s1b_ops: at the start, and after OSet / OSynth / OSetCell until the next OGet);
+   outside this class the from-scratch statement is false (C06_cell_write_after_get_is_stale).
+   Same conclusion `gets_scratch` and same hypotheses on the program as the S1 statement.
+
+   STILL MISSING (each needs the invariant of Structs/SInv.v restated, not a local change):
+   (K) struct-keyed families (skind fam = true): memos in slot memo tables, OGetS, cascades.
+       Clauses that change: every `d_memo s (loc_of q)` + `gk q` of SInv.dval / smemo_ok / owned /
+       si_lock / si_active / wcur.w_alloc becomes a generation-aware lookup through the slot of
+       the key; `sext.x_memo` (memos never disappear within a revision) and `sext.x_locked` (a
+       read-locked slot is unchanged) are false (cascades delete memos, storing a keyed memo
+       changes its slot); get_memo on a keyed key takes the read lock (a slot change, as in
+       SBody.lock_for_read); a new clause "a keyed memo verified now has its key slot read-locked
+       now" gives that nothing settled references a cascade; an induction through delete_entity's
+       nested cascade (ProofsCascade.casc) replaces SExec.finish_delete; `no_forge` seeded with
+       the key of a keyed body; call edges on keyed keys get the treatment field edges have in
+       SVerify.walk_ok (the key is live when the edge is reached).
+   (D) durabilities above LOW: mo_low / si_low dropped; per memo "every input, field and callee of
+       the closure has durability >= m_dur"; inputs `f_changed <= last_changed (f_dur)`; dval
+       gets the stable-window disjunct of Core/DInv (`last_changed (m_dur md) <= m_verified md`
+       instead of `v <= m_verified md`), which breaks "the closure of a memo verified now is
+       verified now" (SStable.settled_clos) used by si_lock, listed_live, finish_delete; slots:
+       sl_dur and the lower_dur reset of `update`; the D_NEVER edge drop of finish_exec. *)
+Theorem C06_from_scratch_writes_partial :
+  forall (prog : qk -> body) (skind : N -> bool) (idhash : val -> N) (rank : qk -> nat) (NF : nat),
+  calls_below prog rank -> (forall q, (rank q < NF)%nat) ->
+  no_forge idhash prog -> (forall q, nospec (prog q)) -> (forall f, skind f = false) ->
+  (forall q d, calls (prog q) d -> gk d) -> (forall q d, calls (prog q) d -> first_read (prog d)) ->
+  forall fuel iv os,
+  s1b_ops prog true os -> 1 + 2 * N.of_nat (length os) < GMAX ->
+  Forall2 okout os (snd (run_ops prog skind [] idhash fuel (init iv (fun _ => 0)) os)) ->
+  gets_scratch prog skind idhash NF fuel (init iv (fun _ => 0)) os.
+Proof. exact from_scratch_S1b_init. Qed.
+Check C06_from_scratch_writes_partial :
+  forall (prog : qk -> body) (skind : N -> bool) (idhash : val -> N) (rank : qk -> nat) (NF : nat),
+  calls_below prog rank -> (forall q, (rank q < NF)%nat) ->
+  no_forge idhash prog -> (forall q, nospec (prog q)) -> (forall f, skind f = false) ->
+  (forall q d, calls (prog q) d -> gk d) -> (forall q d, calls (prog q) d -> first_read (prog d)) ->
+  forall fuel iv os,
+  s1b_ops prog true os -> 1 + 2 * N.of_nat (length os) < GMAX ->
+  Forall2 okout os (snd (run_ops prog skind [] idhash fuel (init iv (fun _ => 0)) os)) ->
+  gets_scratch prog skind idhash NF fuel (init iv (fun _ => 0)) os.
+Print Assumptions C06_from_scratch_writes_partial.
+
+(* Non-vacuity: cr = cell 0 + rd.  cell := 10, cr = 13; synthetic write (durability HIGH),
+   cell := 20, cr = 23; in0 := 0, cr = 20 + 99.  All hypotheses hold. *)
+Example C06_from_scratch_writes_nonvacuous :
+  (calls_below (prog_of r1_nk skind0 r2_nodes) (fun q => r2_frank (fst q)) /\
+   (forall q : qk, (r2_frank (fst q) < r2_NF)%nat) /\
+   no_forge r1_idhash (prog_of r1_nk skind0 r2_nodes) /\
+   (forall q, nospec (prog_of r1_nk skind0 r2_nodes q)) /\ (forall f, skind0 f = false) /\
+   (forall q d, calls (prog_of r1_nk skind0 r2_nodes q) d -> gk d) /\
+   (forall q d, calls (prog_of r1_nk skind0 r2_nodes q) d -> first_read (prog_of r1_nk skind0 r2_nodes d)) /\
+   s1b_ops (prog_of r1_nk skind0 r2_nodes) true r2_ops /\ 1 + 2 * N.of_nat (length r2_ops) < GMAX /\
+   Forall2 okout r2_ops (snd (run_ops (prog_of r1_nk skind0 r2_nodes) skind0 [] r1_idhash 40%nat
+                                      (init (lookup3 r1_ival) (fun _ => 0)) r2_ops))) /\
+  snd (run_ops (prog_of r1_nk skind0 r2_nodes) skind0 [] r1_idhash 40%nat (init (lookup3 r1_ival) (fun _ => 0)) r2_ops) =
+  [SOk (0, []); SOk (13, []); SOk (0, []); SOk (0, []); SOk (23, []); SOk (0, []); SOk (119, []); SOk (0, [])].
+Proof. exact (conj r2_hyps r2_outputs). Qed.
+
+(* The restriction on cell writes is necessary: after a Get, a cell write in the same revision is
+   not seen by the next Get (13 again, not 23). *)
+Example C06_cell_write_after_get_is_stale :
+  snd (run_ops (prog_of r1_nk skind0 r2_nodes) skind0 [] r1_idhash 40%nat (init (lookup3 r1_ival) (fun _ => 0))
+         [OSetCell 0 10; OGet (5, (0, 0)); OSetCell 0 20; OGet (5, (0, 0))]) =
+  [SOk (0, []); SOk (13, []); SOk (0, []); SOk (13, [])].
+Proof. exact r2_cell_after_get_is_stale. Qed.
+
+(* C06_from_scratch_canonical_partial: from-scratch UP TO THE NAMING OF HANDLES.  For programs
+   that are parametric in handles (Structs/SParam.v `parametric`: bodies only pass handles
+   around — `brel`; every DSL program is: SParam.table_param), the answer of every Get after
+   every prefix of an S1b history is related to the from-scratch value Ew w' q of EVERY world w'
+   consistent for q with the current inputs and cells and an ARBITRARY allocator: the data values
+   are equal and the struct lists correspond position by position (`rrel (crel ..)`: the two
+   handles were created by the same query of the closure under the same identity with the same
+   fields).  So the value does not depend on which slots and generations the engine happened to
+   use; this closes the "canonical naming" clause of the stage. *)
+Theorem C06_from_scratch_canonical_partial :
+  forall (prog : qk -> body) (skind : N -> bool) (idhash : val -> N) (rank : qk -> nat) (NF : nat),
+  calls_below prog rank -> (forall q, (rank q < NF)%nat) ->
+  no_forge idhash prog -> parametric prog -> (forall q, nospec (prog q)) -> (forall f, skind f = false) ->
+  (forall q d, calls (prog q) d -> gk d) -> (forall q d, calls (prog q) d -> first_read (prog d)) ->
+  forall fuel iv os,
+  s1b_ops prog true os -> 1 + 2 * N.of_nat (length os) < GMAX ->
+  Forall2 okout os (snd (run_ops prog skind [] idhash fuel (init iv (fun _ => 0)) os)) ->
+  forall os1 q os2, os = os1 ++ OGet q :: os2 ->
+  let s1 := fst (run_ops prog skind [] idhash fuel (init iv (fun _ => 0)) os1) in
+  let s' := fst (step prog skind [] idhash fuel s1 (OGet q)) in
+  exists v, snd (step prog skind [] idhash fuel s1 (OGet q)) = SOk v /\
+            (forall w', (forall i, w_in (wcur s') i = w_in w' i) -> (forall c, w_cell (wcur s') c = w_cell w' c) ->
+                        wcons prog idhash NF w' q ->
+                        rrel (crel prog idhash NF (wcur s') w' q) v (Ew idhash prog NF w' q)) /\
+            wcons prog idhash NF (wcur s') q /\
+            (forall h, In h (snd v) -> live s' h).
+Proof. exact from_scratch_S1b_canon. Qed.
+Check C06_from_scratch_canonical_partial :
+  forall (prog : qk -> body) (skind : N -> bool) (idhash : val -> N) (rank : qk -> nat) (NF : nat),
+  calls_below prog rank -> (forall q, (rank q < NF)%nat) ->
+  no_forge idhash prog -> parametric prog -> (forall q, nospec (prog q)) -> (forall f, skind f = false) ->
+  (forall q d, calls (prog q) d -> gk d) -> (forall q d, calls (prog q) d -> first_read (prog d)) ->
+  forall fuel iv os,
+  s1b_ops prog true os -> 1 + 2 * N.of_nat (length os) < GMAX ->
+  Forall2 okout os (snd (run_ops prog skind [] idhash fuel (init iv (fun _ => 0)) os)) ->
+  forall os1 q os2, os = os1 ++ OGet q :: os2 ->
+  let s1 := fst (run_ops prog skind [] idhash fuel (init iv (fun _ => 0)) os1) in
+  let s' := fst (step prog skind [] idhash fuel s1 (OGet q)) in
+  exists v, snd (step prog skind [] idhash fuel s1 (OGet q)) = SOk v /\
+            (forall w', (forall i, w_in (wcur s') i = w_in w' i) -> (forall c, w_cell (wcur s') c = w_cell w' c) ->
+                        wcons prog idhash NF w' q ->
+                        rrel (crel prog idhash NF (wcur s') w' q) v (Ew idhash prog NF w' q)) /\
+            wcons prog idhash NF (wcur s') q /\
+            (forall h, In h (snd v) -> live s' h).
+Print Assumptions C06_from_scratch_canonical_partial.
+
+(* Non-vacuity: the program of C06_from_scratch_writes_nonvacuous is parametric (its other
+   hypotheses are in that Example). *)
+Example C06_from_scratch_canonical_nonvacuous :
+  parametric (prog_of r1_nk skind0 r2_nodes) /\ parametric (prog_of r1_nk skind0 r1_nodes).
+Proof. exact (conj r2_param r1_param). Qed.
+
+(* C06_model_is_spec_partial: the executable model computes the SPECIFICATION Structs/Spec.v —
+   the operational from-scratch evaluator `spec_get` that the differential checks run against
+   the implementation (one evaluation on a fresh database, no revisions, no slots: handles are
+   interned canonical names (creator query, identity value, occurrence)).  After every prefix of
+   an S1b history the next Get q answers SOk v such that spec_get on the snapshot (inputs, cells)
+   of the state after the Get, with fuel NF, answers SOk (fst v, names); the i-th name is Some nm
+   where nm names the creation of the i-th struct of v (`cre`: created by the query d of the
+   closure, as the occ-th creation of d with identity value idv; nm = CN (fam d) (KIn (key d))
+   idv occ); and with ANY fuel, whenever spec_get answers, its data value is fst v.
+   Program hypothesis: Kripke parametricity in handles (Structs/SParamK.v; every DSL program:
+   SParamK.table_paramK).  With the correspondence implementation == executable model this makes
+   "implementation == specification" on this class a consequence, not a separate observation. *)
+Theorem C06_model_is_spec_partial :
+  forall (prog : qk -> body) (skind : N -> bool) (idhash : val -> N) (rank : qk -> nat) (NF : nat),
+  calls_below prog rank -> (forall q, (rank q < NF)%nat) ->
+  no_forge idhash prog -> parametricK prog -> (forall q, nospec (prog q)) -> (forall f, skind f = false) ->
+  (forall q d, calls (prog q) d -> gk d) -> (forall q d, calls (prog q) d -> first_read (prog d)) ->
+  forall fuel iv os,
+  s1b_ops prog true os -> 1 + 2 * N.of_nat (length os) < GMAX ->
+  Forall2 okout os (snd (run_ops prog skind [] idhash fuel (init iv (fun _ => 0)) os)) ->
+  forall os1 q os2, os = os1 ++ OGet q :: os2 ->
+  let s1 := fst (run_ops prog skind [] idhash fuel (init iv (fun _ => 0)) os1) in
+  let s' := fst (step prog skind [] idhash fuel s1 (OGet q)) in
+  exists v names,
+    snd (step prog skind [] idhash fuel s1 (OGet q)) = SOk v /\
+    spec_get prog skind (snap_of s') NF q = SOk (fst v, names) /\
+    Forall2 (fun onm h => exists nm d, onm = Some nm /\ clos idhash prog NF (wcur s') q d /\
+                                       cre prog idhash NF (wcur s') d nm h) names (snd v) /\
+    (forall n x nms, spec_get prog skind (snap_of s') n q = SOk (x, nms) -> x = fst v).
+Proof. exact model_is_spec_S1b. Qed.
+Check C06_model_is_spec_partial :
+  forall (prog : qk -> body) (skind : N -> bool) (idhash : val -> N) (rank : qk -> nat) (NF : nat),
+  calls_below prog rank -> (forall q, (rank q < NF)%nat) ->
+  no_forge idhash prog -> parametricK prog -> (forall q, nospec (prog q)) -> (forall f, skind f = false) ->
+  (forall q d, calls (prog q) d -> gk d) -> (forall q d, calls (prog q) d -> first_read (prog d)) ->
+  forall fuel iv os,
+  s1b_ops prog true os -> 1 + 2 * N.of_nat (length os) < GMAX ->
+  Forall2 okout os (snd (run_ops prog skind [] idhash fuel (init iv (fun _ => 0)) os)) ->
+  forall os1 q os2, os = os1 ++ OGet q :: os2 ->
+  let s1 := fst (run_ops prog skind [] idhash fuel (init iv (fun _ => 0)) os1) in
+  let s' := fst (step prog skind [] idhash fuel s1 (OGet q)) in
+  exists v names,
+    snd (step prog skind [] idhash fuel s1 (OGet q)) = SOk v /\
+    spec_get prog skind (snap_of s') NF q = SOk (fst v, names) /\
+    Forall2 (fun onm h => exists nm d, onm = Some nm /\ clos idhash prog NF (wcur s') q d /\
+                                       cre prog idhash NF (wcur s') d nm h) names (snd v) /\
+    (forall n x nms, spec_get prog skind (snap_of s') n q = SOk (x, nms) -> x = fst v).
+Print Assumptions C06_model_is_spec_partial.
+
+(* Non-vacuity: the example programs are Kripke-parametric; the specification evaluated on the
+   final snapshot of the S1Examples history answers mk = (0, [name (mk(0), identity 0, occ 0)]) and
+   rd = 5, as the model does (C06_from_scratch_nonvacuous: (0, [(0,1)]) and 5). *)
+Example C06_model_is_spec_nonvacuous :
+  parametricK (prog_of r1_nk skind0 r1_nodes) /\ parametricK (prog_of r1_nk skind0 r2_nodes) /\
+  spec_get (prog_of r1_nk skind0 r1_nodes) skind0
+           (snap_of (fst (run_ops (prog_of r1_nk skind0 r1_nodes) skind0 [] r1_idhash 40%nat (init (lookup3 r1_ival) (fun _ => 0)) r1_ops)))
+           r1_NF (1, (0, 0)) = SOk (0, [Some (CN 1 (KIn 0) 0 0)]) /\
+  spec_get (prog_of r1_nk skind0 r1_nodes) skind0
+           (snap_of (fst (run_ops (prog_of r1_nk skind0 r1_nodes) skind0 [] r1_idhash 40%nat (init (lookup3 r1_ival) (fun _ => 0)) r1_ops)))
+           r1_NF (4, (0, 0)) = SOk (5, []).
+Proof. exact (conj r1_paramK (conj r2_paramK r1_spec_get)). Qed.
